@@ -27,7 +27,11 @@ RULE = (
     "runs the remote command locally - on every CPython 3.10-3.13 present, started with -I -S (no site-packages, no "
     "PYTHONPATH: 'import execnet' fails there, which every case verifies remotely first), with the thread and "
     "main_thread_only models. Oracle: the transcript oracle of C02 on every path (hence equal to the import-"
-    "bootstrapped baseline), and at the end no module named execnet* in the worker's sys.modules. Part 'static' is an "
+    "bootstrapped baseline), three consecutive bodies on the idle worker run in the same threads as on an import-"
+    "bootstrapped worker of that model (its serving main thread), and at the end no module named execnet* in the "
+    "worker's sys.modules. The pipe-fed paths (python=, via=, ssh) are additionally run with the remote interpreter's "
+    "standard streams set to ascii / latin-1 (-S without -I plus PYTHONIOENCODING; execnet still not importable, "
+    "verified remotely): the bootstrap text arrives on the remote text-mode stdin. Part 'static' is an "
     "exhaustive sweep of a finite domain (not sampling): every import statement found in the shipped sources is "
     "executed in every isolated interpreter and every free global name of the shipped source must resolve in that "
     "source or in builtins. Non-trivial = a non-import bootstrap path and a program with a sub-channel or callback."
@@ -41,6 +45,7 @@ _pid = itertools.count(1)
 PRECHECK = ("import sys\ntry:\n    import execnet\n    channel.send('importable from ' + execnet.__file__)\n"
             "except ImportError:\n    channel.send('not importable')\nchannel.send(list(sys.version_info[:2]))\n"
             "channel.send(channel.gateway.execmodel.backend)\n")
+THREADCHECK = "import threading\nchannel.send(threading.current_thread().name)\n"
 POSTCHECK = "import sys\nchannel.send(sorted(m for m in sys.modules if m == 'execnet' or m.startswith('execnet.')))\n"
 
 
@@ -75,6 +80,22 @@ class Paths(Part):
         self.saved_path = os.environ.get("PATH", "")
         os.environ["PATH"] = self.bindir + os.pathsep + self.saved_path
         self.servers = []
+        # reference behaviour of the import-bootstrapped worker
+        self.ref_threads = {}
+        g = self.execnet.Group()
+        try:
+            for model in ("thread", "main_thread_only"):
+                gw = g.makegateway(f"popen//execmodel={model}")
+                names = []
+                for _ in range(3):
+                    ch = gw.remote_exec(THREADCHECK)
+                    names.append(ch.receive(30))
+                    ch.waitclose(30)
+                self.ref_threads[model] = names
+        finally:
+            g.terminate(timeout=1.0)
+            atexit.unregister(g._cleanup_atexit)
+        ctx.extra["reference_body_threads"] = self.ref_threads
 
     def teardown(self, ctx):
         os.environ["PATH"] = self.saved_path
@@ -91,6 +112,8 @@ class Paths(Part):
             interp=st.sampled_from(["3.10", "3.11", "3.12", "3.13"]),
             model=st.sampled_from(["thread", "main_thread_only"]),
             convs=st.lists(TP.c02_params(max_items=3), min_size=1, max_size=3),
+            # encoding of the remote interpreter's standard streams (the bootstrap line arrives on its text stdin)
+            stdio=st.sampled_from(["default", "default", "ascii", "latin-1"]),
         ))
 
     def run(self, case, ctx):
@@ -99,6 +122,15 @@ class Paths(Part):
             ctx.count("interpreter_missing_" + case["interp"])
             return dict(labels=["interpreter-missing:" + case["interp"]], nontrivial=False, count=0)
         iso = f"{py} -I -S"
+        stdio = case.get("stdio", "default")
+        saved_ioenc = os.environ.get("PYTHONIOENCODING")
+        if stdio != "default" and case["path"] in ("python", "via", "ssh"):
+            # -I would make the interpreter ignore PYTHONIOENCODING; -S alone keeps site-packages (and execnet) away,
+            # which the remote precondition check below verifies
+            iso = f"{py} -S"
+            os.environ["PYTHONIOENCODING"] = stdio
+        else:
+            stdio = "default"
         group = self.execnet.Group()
         path, model = case["path"], case["model"]
         server = None
@@ -147,6 +179,17 @@ class Paths(Part):
                     raise tree.HarnessError(f"vacuous case: execnet is {imp} on the {path} worker")
                 if path not in ("import", "socket_via") and ".".join(map(str, ver)) != case["interp"]:
                     raise tree.HarnessError(f"worker runs python {ver}, expected {case['interp']}")
+                # where bodies run: on an idle import-bootstrapped worker every one of a series of consecutive bodies runs
+                # in the thread that serves the gateway (its main thread), whatever the model
+                names = []
+                for _ in range(3):
+                    ch = gw.remote_exec(THREADCHECK)
+                    names.append(ch.receive(30))
+                    ch.waitclose(30)
+                if names != self.ref_threads[want_backend]:
+                    raise Violation("paths.body-thread-differs", f"{path}/{case['interp']}/{want_backend}: three consecutive bodies "
+                                    f"ran in threads {names}, on an import-bootstrapped worker in {self.ref_threads[want_backend]}",
+                                    site=path)
                 sequential = model == "main_thread_only" and path not in ("socket_via", "socketserver")
                 program, expects = TP.build_c02_program(case["convs"], sequential=sequential)
                 res = convo.run_a(gw, f"c15-{ctx.shard}-{next(_pid)}", program, inproc.CONVO_SRC)
@@ -167,7 +210,8 @@ class Paths(Part):
             if wd.fired:
                 raise Violation("paths.hang", f"{path}/{case['interp']}/{model}: did not finish within 150 s", site=path)
             rich = any(p["sub"] or p["kind_a"] == "callback" or p["kind_b"] == "callback" for p in case["convs"])
-            return dict(labels=["path:" + path, "py:" + case["interp"], "model:" + model], nontrivial=path != "import" and rich,
+            return dict(labels=["path:" + path, "py:" + case["interp"], "model:" + model, "stdio:" + stdio],
+                        nontrivial=path != "import" and rich,
                         sample={"path": path, "interp": case["interp"], "model": model, "convs": len(case["convs"])})
         except Violation:
             raise
@@ -176,6 +220,10 @@ class Paths(Part):
         except BaseException as e:  # noqa: BLE001 - bootstrap failures of any kind are the finding
             raise Violation("paths.bootstrap-failed", f"{path}/{case['interp']}/{model}: {type(e).__name__}: {e}", site=path) from None
         finally:
+            if saved_ioenc is None:
+                os.environ.pop("PYTHONIOENCODING", None)
+            else:
+                os.environ["PYTHONIOENCODING"] = saved_ioenc
             try:
                 with Watchdog(30):
                     group.terminate(timeout=1.0)
